@@ -504,164 +504,213 @@ func checkF16(c *Check, p *Program) {
 	}
 	c.Analysed("functions", "dpt.packF16")
 	c.Analysed("functions", "dpt.unpackF16")
-	// ---- decoder side
-	ev := &BitEval{P: p, Env: map[ssa.Value]BV{}}
-	one := func(v ssa.Value) BV {
-		a := ev.Eval(v)
-		if len(a) == 1 {
-			return a[0].V
-		}
-		return nil
-	}
-	var mBits, eBits BV
-	signOK := false
-	instrsOf(un, func(in ssa.Instruction) {
-		bo, ok := in.(*ssa.BinOp)
-		if !ok {
-			return
-		}
-		switch bo.Op {
-		case token.OR:
-			if b := one(bo); b != nil && len(b) >= 11 {
-				lo := b.resize(16, false)
-				if lo.Equal(wantBits("00000 data[1][2..0] data[2][7..0]")) {
-					mBits = lo
-				}
-			}
-		case token.AND:
-			if k, isK := constInt(bo.Y); isK && k == 15 {
-				if b := one(bo); b != nil && b.resize(8, false).Equal(wantBits("0000 data[1][6..3]")) {
-					eBits = b
-				}
-			}
-		case token.EQL:
-			if b := one(bo); b != nil && len(b) == 1 && b[0].K == bsrc && b[0].Src == "data[1]" && b[0].Idx == 7 {
-				// the -2048 adjustment is on this edge
-				for _, s := range bo.Block().Succs {
-					f, ok := edgeFact(bo.Block(), s)
-					if ok && f.Op == token.EQL {
-						for _, in2 := range s.Instrs {
-							if sub, ok := in2.(*ssa.BinOp); ok && sub.Op == token.SUB {
-								if k, isK := constInt(sub.Y); isK && k == 2048 {
-									signOK = true
-								}
-							}
-						}
-					}
-				}
-			}
-		}
-	})
-	pos := p.Pos(un.Pos())
-	c.Decide(mBits != nil, "C07.f16", "unpackF16 mantissa = octet1 bits 2..0, octet2", pos, "m = data[1][2..0] data[2][7..0]", "the decoder does not take the 11-bit mantissa from octet 1 bits 2..0 and octet 2")
-	c.Decide(eBits != nil, "C07.f16", "unpackF16 exponent = octet1 bits 6..3", pos, "e = data[1][6..3]", "the decoder does not take the exponent from octet 1 bits 6..3")
-	c.Decide(signOK, "C07.f16", "unpackF16 sign = octet1 bit 7, two's complement", pos, "m -= 2048 exactly when data[1] bit 7 is set", "the decoder does not subtract 2048 from the mantissa exactly when bit 7 of octet 1 is set")
 
-	// ---- encoder side: contributions or-ed into the zeroed literal
-	ppos := p.Pos(pk.Pos())
-	var lit *ssa.Alloc
-	instrsOf(pk, func(in ssa.Instruction) {
-		if al, ok := in.(*ssa.Alloc); ok && strings.Contains(al.Comment, "slicelit") {
-			lit = al
+	// ---- decoder: evaluated per path on symbolic input octets.  The float the decoder stores is
+	// c * float32(m) * float32(1 << e); m and e are read off the path's abstract values.
+	pos := p.Pos(un.Pos())
+	var shl *ssa.BinOp
+	var cvs []*ssa.Convert
+	instrsOf(un, func(in ssa.Instruction) {
+		switch x := in.(type) {
+		case *ssa.BinOp:
+			if k, isK := constInt(x.X); x.Op == token.SHL && isK && k == 1 {
+				shl = x
+			}
+		case *ssa.Convert:
+			bf, ok1 := x.X.Type().Underlying().(*types.Basic)
+			bt, ok2 := x.Type().Underlying().(*types.Basic)
+			if ok1 && ok2 && bf.Info()&types.IsInteger != 0 && bt.Info()&types.IsFloat != 0 {
+				cvs = append(cvs, x)
+			}
 		}
 	})
-	zeroInit := lit != nil
-	if lit != nil {
-		for _, u := range usesOf(lit) {
-			ia, ok := u.(*ssa.IndexAddr)
-			if !ok {
+	var cvM *ssa.Convert
+	for _, cv := range cvs {
+		if shl == nil || stripAllConv(cv.X) != ssa.Value(shl) {
+			cvM = cv
+		}
+	}
+	okShape := shl != nil && cvM != nil && len(cvs) == 2
+	c.Decide(okShape, "C07.f16", "unpackF16 value = c * mantissa * 2^exponent", pos, "one integer mantissa and one power of two are converted to float", "the decoder does not compute the value from one integer mantissa and 1 << exponent")
+	if okShape {
+		// the stored product: constant 0.01 times the two converted factors
+		okProd := false
+		for _, st := range paramStores(un, 1) {
+			leaves := mulLeaves(st.Val, 0)
+			nK, nM, nE := 0, 0, 0
+			for _, l := range leaves {
+				if k, isK := constFloat(l); isK && math.Abs(k-0.01) < 1e-7 {
+					nK++
+				} else if l == ssa.Value(cvM) {
+					nM++
+				} else if cv, isCv := l.(*ssa.Convert); isCv && stripAllConv(cv.X) == ssa.Value(shl) {
+					nE++
+				}
+			}
+			okProd = nK == 1 && nM == 1 && nE == 1 && len(leaves) == 3
+		}
+		c.Decide(okProd, "C07.f16", "unpackF16 result is 0.01 * m * 2^e", pos, "product of the constant 0.01, the mantissa and the power of two", "the stored value is not the product 0.01 * mantissa * 2^exponent")
+		li := &layoutInterp{p: p}
+		data := avSlice{region: "in", off: linConst(0), len: linSym("len(data)"), name: "data"}
+		ups := li.run(un, []AV{data, avPath{path: "f", typ: un.Params[1].Type()}}, nil)
+		nOK := 0
+		okM, okE, okS := true, true, true
+		whyM, whyE := "", ""
+		for _, up := range ups {
+			if o, ok := up.ret.(avOpaque); !ok || o.desc != "nil" {
 				continue
 			}
-			for _, su := range usesOf(ia) {
-				if st, ok := su.(*ssa.Store); ok && st.Block() == lit.Block() {
-					if k, isK := constInt(st.Val); !isK || k != 0 {
-						zeroInit = false
-					}
+			nOK++
+			if len(up.notes) > 0 {
+				okM, whyM = false, strings.Join(up.notes, "; ")
+				continue
+			}
+			ev, _ := up.vals[shl.Y].(avInt)
+			if !ev.bv.resize(8, false).Equal(wantBits("0000 data[1][6..3]")) {
+				okE, whyE = false, "the exponent is ["+ev.bv.String()+"]"
+			}
+			mv, _ := up.vals[cvM.X].(avInt)
+			mb := li.refineBits(up, mv)
+			if len(mb) < 12 || !mb[:11].Equal(wantBits("data[1][2..0] data[2][7..0]")) {
+				okM, whyM = false, "the mantissa is ["+mb.String()+"]"
+				continue
+			}
+			// sign extension: all higher bits equal the pinned value of octet 1 bit 7
+			sign, pinned := up.assume["data[1]#7"]
+			if !pinned {
+				okS = false
+				continue
+			}
+			for i := 11; i < len(mb); i++ {
+				if (sign && mb[i].K != b1) || (!sign && mb[i].K != b0) {
+					okS = false
+				}
+			}
+		}
+		c.Decide(nOK >= 2 && okM, "C07.f16", "unpackF16 mantissa = octet1 bits 2..0, octet2", pos, "low 11 bits of m = data[1][2..0] data[2][7..0] on every decoding path", "the decoder does not take the 11-bit mantissa from octet 1 bits 2..0 and octet 2: "+whyM)
+		c.Decide(nOK >= 2 && okE, "C07.f16", "unpackF16 exponent = octet1 bits 6..3", pos, "e = data[1][6..3] on every decoding path", "the decoder does not take the exponent from octet 1 bits 6..3: "+whyE)
+		c.Decide(nOK >= 2 && okS, "C07.f16", "unpackF16 sign = octet1 bit 7, two's complement", pos, "the bits above the mantissa are all equal to data[1] bit 7 (m - 2048 exactly when it is set)", "the decoder does not extend the mantissa with bit 7 of octet 1 as the two's complement sign (it must subtract 2048 exactly when that bit is set)")
+	}
+
+	// ---- encoder: evaluated per path; the normalisation loop (m /= 2; e++) only computes, so its
+	// header phis are unknowns M and E constrained by the loop's exit condition
+	ppos := p.Pos(pk.Pos())
+	var phiM, phiE *ssa.Phi
+	lps := loopsOf(pk)
+	if len(lps) == 1 {
+		for _, in := range lps[0].Header.Instrs {
+			phi, ok := in.(*ssa.Phi)
+			if !ok {
+				break
+			}
+			for i, e := range phi.Edges {
+				if !lps[0].Body[phi.Block().Preds[i]] {
+					continue
+				}
+				bo, ok := e.(*ssa.BinOp)
+				if !ok || bo.X != ssa.Value(phi) {
+					continue
+				}
+				k, isK := constInt(bo.Y)
+				switch {
+				case bo.Op == token.QUO && isK && k == 2:
+					phiM = phi // halving that truncates towards zero (a shift would round negative mantissas down)
+				case bo.Op == token.ADD && isK && k == 1:
+					phiE = phi
 				}
 			}
 		}
 	}
-	c.Decide(zeroInit, "C07.f16", "packF16 starts from a zeroed 3-byte buffer", ppos, "literal {0, 0, 0}", "the buffer the fields are or-ed into is not all zero")
-	// name the sources: exponent and mantissa values
-	nameOf := map[ssa.Value]string{}
-	var signStore, addInstr ssa.Instruction
-	contrib := map[int64][]BV{}
-	instrsOf(pk, func(in ssa.Instruction) {
-		st, ok := in.(*ssa.Store)
-		if !ok {
-			return
+	c.Decide(phiM != nil && phiE != nil, "C07.f16", "packF16 normalises by m /= 2, e += 1", ppos, "one loop halving the mantissa (truncating division) and counting the exponent", "the encoder has no single loop that halves the mantissa by truncating division by 2 while incrementing the exponent")
+	if phiM == nil || phiE == nil {
+		return
+	}
+	// initial values: m = int(f * 100), e = 0
+	okInit := false
+	for i, e := range phiM.Edges {
+		if lps[0].Body[phiM.Block().Preds[i]] {
+			continue
 		}
-		ia, ok := st.Addr.(*ssa.IndexAddr)
-		if !ok {
-			return
+		if cv, ok := e.(*ssa.Convert); ok {
+			k, _ := scaleOf(cv.X, 0)
+			kf, _ := k.Float64()
+			okInit = math.Abs(kf-100) < 1e-4
 		}
-		k, isK := constInt(ia.Index)
-		bo, isB := st.Val.(*ssa.BinOp)
-		if !isK || !isB || bo.Op != token.OR {
-			return
+	}
+	for i, e := range phiE.Edges {
+		if lps[0].Body[phiE.Block().Preds[i]] {
+			continue
 		}
-		// the or-ed operand
-		x := bo.Y
-		ev2 := &BitEval{P: p, Env: map[ssa.Value]BV{}, Name: func(v ssa.Value) string {
-			if n, ok := nameOf[v]; ok {
-				return n
-			}
-			switch y := v.(type) {
-			case *ssa.Phi:
-				if y.Comment == "exp" {
-					return "exp"
-				}
-				if y.Comment == "signedMantissa" {
-					return "m"
-				}
-			case *ssa.Convert:
-				if ph, ok := y.X.(*ssa.Phi); ok && ph.Comment == "signedMantissa" {
-					return "m"
-				}
-			}
-			return ""
-		}}
-		// phis must be opaque sources here (they are loop-carried)
-		alts := ev2.evalOpaquePhis(x)
-		if alts != nil {
-			contrib[k] = append(contrib[k], alts.resize(8, false))
-			if cst, isC := alts.Const(); isC && cst == 0x80 {
-				signStore = st
-			}
+		if k, isK := constInt(e); !isK || k != 0 {
+			okInit = false
+		}
+	}
+	c.Decide(okInit, "C07.f16", "packF16 starts from m = int(f * 100), e = 0", ppos, "scale 100, exponent 0", "the mantissa does not start as the value times 100 (truncated) or the exponent not at 0")
+	li := &layoutInterp{p: p}
+	paths := li.run(pk, []AV{li.valueOfPath("f", pk.Params[0].Type())}, nil)
+	nameM, nameE := li.havocNames[phiM], li.havocNames[phiE]
+	c.Decide(len(paths) >= 2 && nameM != "" && nameE != "", "C07.f16", "packF16 evaluates on every path", ppos, fmt.Sprintf("%d paths", len(paths)), "the encoder could not be evaluated path by path")
+	sawNeg, sawPos := false, false
+	for _, pp := range paths {
+		lo, hi := pp.env.bounds(linSym(nameM))
+		side := ""
+		switch {
+		case hi < 0:
+			side, sawNeg = "negative mantissa", true
+		case lo >= 0:
+			side, sawPos = "non-negative mantissa", true
+		default:
+			c.Fail("C07.f16", "packF16 distinguishes the sign of the mantissa", ppos, "a path covers negative and non-negative mantissas alike: the sign bit cannot be right on it")
+			continue
+		}
+		key := "packF16 [" + side + "]"
+		if len(pp.notes) > 0 {
+			c.Fail("C07.f16", key+" understood", ppos, strings.Join(pp.notes, "; "))
+			continue
+		}
+		c.Decide(lo >= -2048 && hi <= 2047, "C07.f16", key+" mantissa normalised to 12 bits", ppos, fmt.Sprintf("after the loop the mantissa lies in [%d, %d]", lo, hi), fmt.Sprintf("after the loop the mantissa lies in [%d, %d], not inside [-2048, 2047]: it does not fit sign + 11 bits", lo, hi))
+		sl, isSl := pp.ret.(avSlice)
+		bs, okB := []BV(nil), false
+		if isSl {
+			bs, okB = li.sliceBytes(pp, sl)
+		}
+		if !okB || len(bs) != 3 {
+			c.Fail("C07.f16", key+" returns three octets", ppos, "the result is not a three-octet slice whose content the evaluation follows")
+			continue
+		}
+		s := "0"
+		if side == "negative mantissa" {
+			s = "1"
+		}
+		c.Decide(bs[0].Equal(wantBits("00000000")), "C07.f16", key+" leading octet zero", ppos, "octet 0 = 0", "octet 0 is ["+bs[0].String()+"]")
+		want1 := wantBits(s + " " + nameE + "[3..0] " + nameM + "[10..8]")
+		c.Decide(bs[1].Equal(want1), "C07.f16", key+" octet 1 = sign, exponent, mantissa bits 10..8", ppos, "["+want1.String()+"]", "octet 1 is ["+bs[1].String()+"], the format places the sign in bit 7 (set exactly for negative mantissas), the exponent in bits 6..3 and mantissa bits 10..8 in bits 2..0: ["+want1.String()+"]")
+		want2 := wantBits(nameM + "[7..0]")
+		c.Decide(bs[2].Equal(want2), "C07.f16", key+" octet 2 = mantissa bits 7..0", ppos, "["+want2.String()+"]", "octet 2 is ["+bs[2].String()+"], not the low mantissa byte")
+	}
+	c.Decide(sawNeg && sawPos, "C07.f16", "packF16 both signs occur", ppos, "paths for negative and for non-negative mantissas", fmt.Sprintf("negative: %v, non-negative: %v", sawNeg, sawPos))
+}
+
+// paramStores: stores through pointer parameter i of fn.
+func paramStores(fn *ssa.Function, i int) []*ssa.Store {
+	var out []*ssa.Store
+	if i >= len(fn.Params) {
+		return nil
+	}
+	instrsOf(fn, func(in ssa.Instruction) {
+		if st, ok := in.(*ssa.Store); ok && st.Addr == ssa.Value(fn.Params[i]) {
+			out = append(out, st)
 		}
 	})
-	has := func(k int64, spec string) bool {
-		for _, b := range contrib[k] {
-			if b.Equal(wantBits(spec)) {
-				return true
-			}
-		}
-		return false
+	return out
+}
+
+// mulLeaves flattens a tree of floating-point multiplications.
+func mulLeaves(v ssa.Value, depth int) []ssa.Value {
+	if bo, ok := v.(*ssa.BinOp); ok && bo.Op == token.MUL && depth < 6 {
+		return append(mulLeaves(bo.X, depth+1), mulLeaves(bo.Y, depth+1)...)
 	}
-	c.Decide(has(1, "0 exp[3..0] 000"), "C07.f16", "packF16 exponent in octet1 bits 6..3", ppos, "(exp&15)<<3", "the exponent is not placed in bits 6..3 of octet 1")
-	c.Decide(has(1, "00000 m[10..8]"), "C07.f16", "packF16 mantissa high bits in octet1 bits 2..0", ppos, "(mantissa>>8)&7", "the three high mantissa bits are not placed in bits 2..0 of octet 1")
-	c.Decide(has(2, "m[7..0]"), "C07.f16", "packF16 mantissa low byte in octet2", ppos, "uint8(mantissa)", "the low mantissa byte is not octet 2")
-	c.Decide(signStore != nil, "C07.f16", "packF16 sign in octet1 bit 7", ppos, "|= 1<<7", "no store sets bit 7 of octet 1")
-	// two's complement: the sign store and the +2048 are in one region guarded by mantissa < 0
-	if signStore != nil {
-		blk := signStore.Block()
-		for _, in := range blk.Instrs {
-			if bo, ok := in.(*ssa.BinOp); ok && bo.Op == token.ADD {
-				if k, isK := constInt(bo.Y); isK && k == 2048 {
-					addInstr = in
-				}
-			}
-		}
-		okTC := false
-		if addInstr != nil {
-			adj := addInstr.(*ssa.BinOp).X
-			okTC = anyFact(factsAt(blk), func(f Cmp) bool {
-				k, isK := constInt(f.Y)
-				return isK && k == 0 && f.Op == token.LSS && f.X == adj
-			})
-		}
-		c.Decide(addInstr != nil && okTC, "C07.f16", "packF16 sign bit set exactly where 2048 is added to a negative mantissa", p.InstrPos(signStore), "both in the region guarded by mantissa < 0 (two's complement of the 12-bit value)", "the sign bit is not set in the same region that adds 2048 to the mantissa, or that region is not guarded by a comparison of the mantissa itself with zero: small negative values (mantissa 0) or positive mantissas get a wrong sign")
-	}
+	return []ssa.Value{v}
 }
 
 // evalOpaquePhis evaluates v with every Phi treated as an opaque named source.
